@@ -2,7 +2,7 @@
    Only statements here; each is closed by `exact` of a lemma from proofs/EC*.v.
    p, n, G and the low-S threshold are the values printed from the compiled library (gen/Params_gen.v). *)
 From Coq Require Import NArith ZArith Znumtheory.
-From BV Require Import lib.Ints gen.Params_gen model.EC proofs.ECLemmas proofs.ECScalar proofs.ECParse proofs.ECGroup.
+From BV Require Import lib.Ints gen.Params_gen model.EC model.ECSign proofs.ECLemmas proofs.ECScalar proofs.ECParse proofs.ECGroup proofs.ECSignThm.
 Local Open Scope Z_scope.
 
 (* ---- scalars: the limb-wise tests of scalar_4x64_impl.h are the integer comparisons ---- *)
@@ -148,7 +148,16 @@ Section Ecdsa.
     node_ecdsa_verify_gen pt add mulG mul xof inv (r, s) m Q = ecdsa_sig_verify_gen pt add mulG mul xof inv r s Q m /\
     node_ecdsa_verify_gen pt add mulG mul xof inv (r, s) m Q = ecdsa_verify_gen pt add mulG mul xof inv (r, Z.min s (SECP256K1_N - s)) m Q.
   Proof. intros (H1 & H2 & H3 & H4 & H5 & H6 & H7). exact (node_verify_spec pt add zero neg H1 H2 H3 H4 G H5 xof H6 inv H7). Qed.
+
+  (* sign-then-verify: whatever secp256k1_ecdsa_sig_sign returns for key d, message m and nonce k is a low-S
+     signature with 0 < r < n that the strict verification accepts under the public key d*G *)
+  Theorem C50_ecdsa_sign_then_verify : group_premises -> (forall P x, xof P = Some x -> 0 <= x < SECP256K1_P) ->
+    forall d m k r s, 0 < d < SECP256K1_N -> 0 <= m < SECP256K1_N -> 0 < k < SECP256K1_N ->
+    ecdsa_sig_sign_gen pt mulG xof inv d m k = Some (r, s) ->
+    ecdsa_verify_gen pt add mulG mul xof inv (r, s) m (mulG d) = true /\ 0 < r < SECP256K1_N /\ 0 < s <= SECP256K1_N / 2.
+  Proof. intros (H1 & H2 & H3 & H4 & H5 & H6 & H7) H8. exact (ecdsa_sign_verify pt add zero neg H1 H2 H3 H4 G H5 xof H6 H8 inv H7). Qed.
 End Ecdsa.
+Print Assumptions C50_ecdsa_sign_then_verify.
 Print Assumptions C50_ecdsa_verify_ignores_sign_of_s.
 Print Assumptions C50_strict_verify_iff_valid_and_low_s.
 Print Assumptions C50_node_verify_iff_normalised_form_valid.
